@@ -102,7 +102,7 @@ def snapshot():
     return out, inj
 
 
-def HOOK(k, o, key="", arg=None):
+def HOOK(k, o, key="", arg=None, st=""):
     """Called from inside every user callback."""
     if len(Rec.log) > MAX_EVENTS:
         # the robot thread is spinning without ever blocking in NotifierDelay.wait(): stop recording, let the
@@ -113,7 +113,7 @@ def HOOK(k, o, key="", arg=None):
     dec = Rec.policy.decide(k, o, key)
     vals, inj = snapshot()
     ev = {"e": "cb", "k": k, "o": o, "key": key, "raise": bool(dec["raise"]), "w": dec["w"],
-          "adv": dec["adv"], "ret": dec["ret"],
+          "adv": dec["adv"], "ret": dec["ret"], "eng": list(dec.get("eng", [])), "st": st,
           "t": wpilib.RobotController.getFPGATime() - Rec.t0,
           "m": Rec.inst.getEntry("/robot/mode").getString(""),
           "vals": vals, "inj": inj,
@@ -121,6 +121,8 @@ def HOOK(k, o, key="", arg=None):
     Rec.log.append(ev)
     for w in dec["w"]:
         setattr(getattr(Rec.robot, w["c"]), w["a"], w["v"])
+    for c in dec.get("eng", []):
+        getattr(Rec.robot, c).engage()
     if dec["adv"]:
         hs.stepTimingAsync(dec["adv"])
     if dec["raise"]:
@@ -168,11 +170,11 @@ def make_component(c, layout, variant):
     if is_sm:
         # a magicbot.StateMachine as a component: never engaged, so its default state is what execute() runs
         def go(self):
-            pass
+            HOOK("execute", comp_name(self, c), st="go")
         ns["go"] = sm_state(first=True)(go)
 
         def idle(self):
-            HOOK("execute", comp_name(self, c))
+            HOOK("execute", comp_name(self, c), st="idle")
         ns["idle"] = sm_default_state(idle)
     else:
         def execute(self):
@@ -326,7 +328,8 @@ def write_auto_package(root, layout):
 # ------------------------------------------------------------------------------------------------
 # environment policies
 # ------------------------------------------------------------------------------------------------
-NOOP = {"raise": False, "w": [], "adv": 0, "ret": 0}
+NOOP = {"raise": False, "w": [], "adv": 0, "ret": 0, "eng": []}
+ENGAGERS = ("teleopPeriodic", "auto.on_iteration", "execute", "disabledPeriodic", "on_enable", "robotPeriodic")
 FAULT_SITES = ("on_enable", "on_disable", "execute", "autonomousInit", "teleopInit", "teleopPeriodic",
                "disabledInit", "disabledPeriodic", "testInit", "testPeriodic", "robotPeriodic", "feedback",
                "auto.on_enable", "auto.on_iteration", "auto.on_disable")
@@ -359,7 +362,10 @@ class RandomPolicy:
         sk = (k + (":" + key if k == "feedback" else ""), o)
         n = self.count[sk] = self.count.get(sk, 0) + 1
         f = self.fault.get(sk)
-        d = {"raise": f == "all" or f == n, "w": [], "adv": 0, "ret": 0}
+        d = {"raise": f == "all" or f == n, "w": [], "adv": 0, "ret": 0, "eng": []}
+        sms = self.layout.get("sm", [])
+        if sms and k in ENGAGERS and rng.random() < 0.35:
+            d["eng"] = [rng.choice(sms)]
         if k in WRITERS and self.attrs and rng.random() < 0.35:
             for _ in range(rng.choice([1, 1, 2])):
                 c, a = rng.choice(self.attrs)
@@ -407,19 +413,20 @@ class ScriptPolicy:
                 e = self.ev[j]
                 if not e.get("_used") and e["o"] == o and e.get("key", "") == key:
                     e["_used"] = True
-                    return {"raise": e["raise"], "w": list(e["w"]), "adv": e["adv"], "ret": e["ret"]}
+                    return {"raise": e["raise"], "w": list(e["w"]), "adv": e["adv"], "ret": e["ret"], "eng": []}
                 j += 1
             # no entry for this getter (the scripted behaviour ended, e.g. with a fatal fault, before calling it)
-            return dict(NOOP, w=[])
+            return dict(NOOP, w=[], eng=[])
         if self.i < len(self.ev):
             e = self.ev[self.i]
             if e["e"] == "cb" and e["k"] == k and e["o"] == o and e.get("key", "") == key:
                 self.i += 1
-                return {"raise": e["raise"], "w": list(e["w"]), "adv": e["adv"], "ret": e["ret"]}
+                return {"raise": e["raise"], "w": list(e["w"]), "adv": e["adv"], "ret": e["ret"],
+                        "eng": list(e.get("eng", []))}
             self.desync += 1      # the script has a different event here
             self.where.append({"i": self.i, "script": {x: e[x] for x in e if x in ("e", "k", "o", "key")},
                                "actual": [k, o, key]})
-        return dict(NOOP, w=[])
+        return dict(NOOP, w=[], eng=[])
 
     def env_events(self):
         evs = []
